@@ -4,6 +4,7 @@ import RocflModel.ValidateNums
 import RocflModel.Validator
 import RocflModel.InvCheck
 import RocflModel.Cli
+import RocflModel.ListView
 import RocflModel.S3
 /-
   Driver side of the physical-layer protocol: prints the model's install-phase scripts and runs the
@@ -232,6 +233,14 @@ def physStep (op : String) (a : List String) : String :=
   | "script-vexit", "repo" :: se :: root :: hier :: rs =>
     match parseVRes root, parseVRes hier with
     | some r, some h => s!"ok {Cli.validateRepoExit (csv se) [] r h (rs.map parseVRes)}"
+    | _, _ => "bad-arg"
+  -- script-lscontents <0|1 logical dirs> <path query|-> <logical path>*: what `ls <object> [<path>]` prints
+  | "script-lscontents", dm :: q :: ps =>
+    match (if q == "-" then some none else (decodeArg q).map some), ps.mapM decodeArg with
+    | some query, some paths =>
+      match ListView.listContents (dm == "1") query paths with
+      | some out => "ok " ++ " ".intercalate (out.map encodeArg)
+      | none => "ok bad-glob"
     | _, _ => "bad-arg"
   -- script-s3key <prefix as given> <relative path>: the key, and the key made relative again
   | "script-s3key", [pre, rel] =>
